@@ -206,8 +206,8 @@ def Node.withDetached (d : Option Path) : Node → Node
 
 /-- the record a round trip returns: live executors stripped, detached path `d`, and the cache of a
 composite forgotten (every adopted child calls `add_child`) -/
-@[simp] def imgCore (c : Core) (d : Option Path) (ch : List Node) : Core :=
-  { c.forState none with detached := d, cached := if ch.isEmpty then c.cached else none }
+@[simp] def imgCore (cfg : Cfg) (c : Core) (d : Option Path) (ch : List Node) : Core :=
+  { c.forState none with detached := d, cached := if cfg.keepCache || ch.isEmpty then c.cached else none }
 
 theorem afterAdopt_fields (c : Core) (cs : List Node) :
     (c.afterAdopt cs).kind = c.kind ∧ (c.afterAdopt cs).ins = c.ins ∧ (c.afterAdopt cs).outs = c.outs ∧
@@ -218,7 +218,7 @@ mutual
 /-- the graph a round trip returns when no lookup fails and no link pushes a new value -/
 def img (cfg : Cfg) (d : Option Path) : Node → Node
   | .mk c ch dg sg =>
-    .mk (imgCore c d ch) (imgL cfg ch)
+    .mk (imgCore cfg c d ch) (imgL cfg ch)
       (restore cfg (strings (inDom ch) dg.inl))
       (restoreSig cfg (strings (sInDom ch) sg.inl) (strings (sOutDom ch) sg.outl))
 def imgL (cfg : Cfg) : List Node → List Node
@@ -229,7 +229,7 @@ end
 @[simp] theorem Exec.strip_strip (e : Exec) : e.strip.strip = e.strip := by cases e <;> rfl
 
 @[simp] theorem img_core (cfg : Cfg) (d : Option Path) (n : Node) :
-    (img cfg d n).core = imgCore n.core d n.children := by
+    (img cfg d n).core = imgCore cfg n.core d n.children := by
   cases n; simp [img, Node.core, Node.children]
 
 @[simp] theorem adopt_core (n : Node) : n.adopt.core = { n.core with detached := none } := by
@@ -457,12 +457,14 @@ theorem forgeOut_ok (cfg : Cfg) (cs : List Node) (c : Core) :
       exact ih'
 
 theorem afterAdopt_imgLd (cfg : Cfg) (c : Core) (pp d : Option Path) (ch : List Node) :
-    (c.forState pp).afterAdopt (imgLd cfg d ch) = imgCore c (c.forState pp).detached ch := by
-  cases ch <;> simp [Core.afterAdopt, imgLd, Core.forState]
+    (if cfg.keepCache then c.forState pp else (c.forState pp).afterAdopt (imgLd cfg d ch)) =
+      imgCore cfg c (c.forState pp).detached ch := by
+  cases ch <;> cases h : cfg.keepCache <;> simp [Core.afterAdopt, imgLd, Core.forState, h]
 
 theorem afterAdopt_imgL (cfg : Cfg) (c : Core) (d : Option Path) (ch : List Node) :
-    ((imgCore c d ch).forState none).afterAdopt (imgL cfg ch) = imgCore c d ch := by
-  cases ch <;> simp [Core.afterAdopt, imgL, Core.forState]
+    (if cfg.keepCache then (imgCore cfg c d ch).forState none
+      else ((imgCore cfg c d ch).forState none).afterAdopt (imgL cfg ch)) = imgCore cfg c d ch := by
+  cases ch <;> cases h : cfg.keepCache <;> simp [Core.afterAdopt, imgL, Core.forState, h]
 
 theorem setstate_ok (cfg : Cfg) (c : Core) (cs : List Node)
     (ds ss fo : List (Addr × Addr))
@@ -475,13 +477,22 @@ theorem setstate_ok (cfg : Cfg) (c : Core) (cs : List Node)
       (∀ p ∈ c.inLinks, ∀ v, valOf c.ins p.1 = some v → QuietL (cs.map Node.adopt) p.2.1 p.2.2 v) ∧
       (∀ p ∈ c.outLinks, ∀ v, outValOf (cs.map Node.adopt) p.1 = some v → setVal c.outs p.2 v = c.outs)) :
     setstate cfg c cs ds ss fo =
-      .ok (.mk (c.afterAdopt cs) (cs.map Node.adopt) (restore cfg ds) (restoreSig cfg ss fo)) := by
+      .ok (.mk (if cfg.keepCache then c else c.afterAdopt cs) (cs.map Node.adopt) (restore cfg ds)
+        (restoreSig cfg ss fo)) := by
   have hs : (c.starting.all fun l => decide (l ∈ childLabels cs)) = true := by
     rw [List.all_eq_true]; intro l hl'; simpa using hstart l hl'
-  obtain ⟨f1, f2, f3, f4, f5⟩ := afterAdopt_fields c cs
+  have hf : (if cfg.keepCache then c else c.afterAdopt cs).kind = c.kind ∧
+      (if cfg.keepCache then c else c.afterAdopt cs).ins = c.ins ∧
+      (if cfg.keepCache then c else c.afterAdopt cs).outs = c.outs ∧
+      (if cfg.keepCache then c else c.afterAdopt cs).inLinks = c.inLinks ∧
+      (if cfg.keepCache then c else c.afterAdopt cs).outLinks = c.outLinks := by
+    cases cfg.keepCache
+    · simpa using afterAdopt_fields c cs
+    · simp
+  obtain ⟨f1, f2, f3, f4, f5⟩ := hf
   unfold setstate
   simp only [hs, hds, hss, hfo, Bool.not_true, Bool.and_false, Bool.false_eq_true, if_false]
-  generalize hc' : c.afterAdopt cs = c' at f1 f2 f3 f4 f5 ⊢
+  generalize hc' : (if cfg.keepCache then c else c.afterAdopt cs) = c' at f1 f2 f3 f4 f5 ⊢
   by_cases hk : c.kind.hasLinks = true
   · have L := hl hk
     simp only [f1, hk, if_true]
@@ -555,28 +566,31 @@ end
 
 mutual
 /-- the hypothesis under which the PINNED restore is faithful: where the reconnection order is not
-repaired, no data input holds more than one connection and no signal output fires more than one -/
+repaired, no data input holds more than one connection and no signal output fires more than one;
+where the cache is not kept, no composite (with children) holds one -/
 def AtMostOne (cfg : Cfg) : Node → Prop
-  | .mk _ ch dg sg =>
+  | .mk c ch dg sg =>
     (cfg.revIter = false → ∀ a, (dg.inl a).length ≤ 1) ∧
-    (cfg.firing = false → ∀ o, (sg.outl o).length ≤ 1) ∧ AtMostOneL cfg ch
+    (cfg.firing = false → ∀ o, (sg.outl o).length ≤ 1) ∧
+    (cfg.keepCache = false → ch ≠ [] → c.cached = none) ∧ AtMostOneL cfg ch
 def AtMostOneL (cfg : Cfg) : List Node → Prop
   | [] => True
   | n :: ns => AtMostOne cfg n ∧ AtMostOneL cfg ns
 end
 
 mutual
-theorem atMostOne_of_repaired (cfg : Cfg) (h1 : cfg.revIter = true) (h2 : cfg.firing = true) :
-    ∀ n : Node, AtMostOne cfg n
+theorem atMostOne_of_repaired (cfg : Cfg) (h1 : cfg.revIter = true) (h2 : cfg.firing = true)
+    (h3 : cfg.keepCache = true) : ∀ n : Node, AtMostOne cfg n
   | .mk _ ch _ _ => by
     simp only [AtMostOne]
-    exact ⟨fun h => by simp [h1] at h, fun h => by simp [h2] at h, atMostOneL_of_repaired cfg h1 h2 ch⟩
-theorem atMostOneL_of_repaired (cfg : Cfg) (h1 : cfg.revIter = true) (h2 : cfg.firing = true) :
-    ∀ ns : List Node, AtMostOneL cfg ns
+    exact ⟨fun h => by simp [h1] at h, fun h => by simp [h2] at h, fun h => by simp [h3] at h,
+      atMostOneL_of_repaired cfg h1 h2 h3 ch⟩
+theorem atMostOneL_of_repaired (cfg : Cfg) (h1 : cfg.revIter = true) (h2 : cfg.firing = true)
+    (h3 : cfg.keepCache = true) : ∀ ns : List Node, AtMostOneL cfg ns
   | [] => by simp [AtMostOneL]
   | n :: ns => by
     simp only [AtMostOneL]
-    exact ⟨atMostOne_of_repaired cfg h1 h2 n, atMostOneL_of_repaired cfg h1 h2 ns⟩
+    exact ⟨atMostOne_of_repaired cfg h1 h2 h3 n, atMostOneL_of_repaired cfg h1 h2 h3 ns⟩
 end
 
 theorem table_congr (dom : List Addr) (f g : Addr → List Addr) (h : ∀ a ∈ dom, f a = g a) :
@@ -692,13 +706,19 @@ theorem obs_img (cfg : Cfg) :
     simp only [WF] at h
     obtain ⟨_, hi, _, hsi, hso, hd, hs, _, _, hch⟩ := h
     simp only [AtMostOne] at hone
-    obtain ⟨o1, o2, och⟩ := hone
+    obtain ⟨o1, o2, o3, och⟩ := hone
     obtain ⟨_, e2, _, _, e5⟩ := doms_imgL cfg ch
     have ih := obsL_img cfg ch hch och
     have t1 := table_congr _ _ _ (restore_data_faithful cfg _ _ dg hi hd o1)
     have t2 := table_congr _ _ _ (restore_sig_faithful cfg _ _ sg hsi hso hs o2)
+    have hcache : (if (cfg.keepCache || ch.isEmpty) = true then c.cached else none) = c.cached := by
+      cases hk : cfg.keepCache
+      · cases ch with
+        | nil => simp
+        | cons x xs => simp [o3 hk (by simp)]
+      · simp
     simp only [img, Node.withDetached, obs, e2, e5, ih, t1, t2]
-    simp [Core.seen, Core.forState]
+    simp [Core.seen, Core.forState, hcache]
 theorem obsL_img (cfg : Cfg) :
     ∀ (ns : List Node), WFL ns → AtMostOneL cfg ns → ∀ p, obsL p (imgL cfg ns) = obsL p ns
   | [], _, _, _ => by simp [imgL]
@@ -739,8 +759,14 @@ theorem fileLoad_save (cfg : Cfg) (n : Node) (hwf : WF n) (hset : cfg.pushLinks 
   simp only [WF] at hwf
   obtain ⟨_, hi, ho, hsi, hso, hd, hs, hst, hlk, hch⟩ := hwf
   simp only [AtMostOne] at hone
-  obtain ⟨o1, o2, och⟩ := hone
+  obtain ⟨o1, o2, o3, och⟩ := hone
   obtain ⟨e1, e2, e3, e4, e5⟩ := doms_imgL cfg ch
+  have hcache : (if (cfg.keepCache || ch.isEmpty) = true then c.cached else none) = c.cached := by
+    cases hk : cfg.keepCache
+    · cases ch with
+      | nil => simp
+      | cons x xs => simp [o3 hk (by simp)]
+    · simp
   -- what the first cycle left on the top composite
   have hD := restore_data_faithful cfg _ _ dg hi hd o1
   have hS := restore_sig_faithful cfg _ _ sg hsi hso hs o2
@@ -762,7 +788,7 @@ theorem fileLoad_save (cfg : Cfg) (n : Node) (hwf : WF n) (hset : cfg.pushLinks 
   have hnd2 := restore_inl_nodup cfg sg.inl _ hsi (fun a _ => hs.nodupIn a)
   simp only [Node.core] at hl ⊢
   simp only [fileLoad, hl, img, e2, e4, e5, hS1, hS3, restoreSig_inl]
-  have hcls : (imgCore c (c.forState pp).detached ch).cls = c.cls := by simp [Core.forState]
+  have hcls : (imgCore cfg c (c.forState pp).detached ch).cls = c.cls := by simp [Core.forState]
   simp only [hcls, ne_eq, not_true_eq_false, if_false]
   rw [setstate_ok cfg]
   · refine ⟨_, rfl, fun p => ?_⟩
@@ -772,7 +798,7 @@ theorem fileLoad_save (cfg : Cfg) (n : Node) (hwf : WF n) (hset : cfg.pushLinks 
       (restore_sig_faithful' cfg _ _ sg _ sg.outl hsi hso hs hmem hnd2 (fun _ _ => rfl) o2)
     have ih := obsL_img cfg ch hch och
     simp only [Node.withDetached, obs, e2, e5, ih, t1, t2, afterAdopt_imgL]
-    simp [Core.seen, Core.forState]
+    simp [Core.seen, Core.forState, hcache]
   · intro l hl'; rw [e1]; exact hst l (by simpa [Core.forState] using hl')
   · rw [imgL_adopt, e2, e3]
     exact checkStrs_strings _ _ _ _ (fun a ha => ha) (fun a _ o ho' => hd.closed a o ho')
